@@ -614,8 +614,14 @@ pixman_transform_bounds (const struct pixman_transform *matrix,
 
 	x1 = pixman_fixed_to_int (v[i].vector[0]);
 	y1 = pixman_fixed_to_int (v[i].vector[1]);
-	x2 = pixman_fixed_to_int (pixman_fixed_ceil (v[i].vector[0]));
-	y2 = pixman_fixed_to_int (pixman_fixed_ceil (v[i].vector[1]));
+	/* ceil = floor + (fraction != 0); pixman_fixed_ceil() would
+	 * overflow for coordinates above 32767.0
+	 */
+	x2 = x1 + (pixman_fixed_frac (v[i].vector[0]) != 0);
+	y2 = y1 + (pixman_fixed_frac (v[i].vector[1]) != 0);
+
+	if (x2 > INT16_MAX || y2 > INT16_MAX)
+	    return FALSE;
 
 	if (i == 0)
 	{
